@@ -11,7 +11,7 @@ def lst(it, limit=64):
     '''list() that cannot run away on a corrupted (cyclic) structure.'''
     return list(itertools.islice(iter(it), limit))
 
-from mc import explorer
+from mc import core, explorer
 
 NEEDS_BRIDGEPOINT = False
 ASSUMPTIONS = [
@@ -530,13 +530,105 @@ def run(ctx):
         ctx.notes[m.clsname + ('' if m.universe[0] is not None else '_falsy') + '_closed'] = res['closed']
         if res['seen']:
             ctx.sample(dict(cls=m.clsname, state_history=sorted(res['seen'].values(), key=lambda h: (len(h), repr(h)))[-1]))
+    cases = [dict(family='large', cls=c, n=n, build=b) for c in ('OrderedSet', 'QuerySet') for n in LARGE_SIZES[ctx.tier]
+             for b in LARGE_BUILDS]
+    ctx.pmap(large_task, [[c] for c in cases], chunk=1)
+    ctx.require(ctx.n('large_comparisons') >= 100, 'too few comparisons on large sets (%d)' % ctx.n('large_comparisons'))
     n_expected = len(ordered_subsets(list(range(3 if ctx.quick else 5))))
     ctx.require(total_states >= 2 * n_expected, 'fewer states than ordered subsets (%d < %d)' % (total_states, 2 * n_expected))
     ctx.require(ctx.nd('outcomes') >= 40, 'too few distinct outcomes (%d)' % ctx.nd('outcomes'))
     ctx.require(ctx.n('traces') > 1000, 'too few validated transitions')
 
 
+# ---------------------------------------------------------------------------
+# large sets (round 9, C17-18): the same comparisons on sets whose sizes lie around 256 and well above -- lengths and
+# elements that are no longer small interned integers
+# ---------------------------------------------------------------------------
+LARGE_SIZES = {'quick': [0, 1, 2, 255, 256, 257, 258, 1000], 'thorough': [0, 1, 2, 255, 256, 257, 258, 1000, 5000, 70000]}
+LARGE_BUILDS = ['add', 'ior-list', 'constructor']
+
+
+def large_case(ctx, case):
+    import xtuml
+    cls = getattr(xtuml, case['cls'])
+    n, build = case['n'], case['build']
+    ref = [i * 3 + 1 for i in range(n)]            # distinct int objects above the small-integer cache for i >= 86
+
+    def bad(kind, msg, exp=None, got=None):
+        ctx.violation('c17:large:%s' % kind, case, '%s of %d elements built by %s: %s' % (case['cls'], n, build, msg), exp, got)
+        return False
+    if build == 'add':
+        s = cls()
+        for v in ref:
+            s.add(v)
+    elif build == 'ior-list':
+        s = cls()
+        s |= list(ref)
+    else:
+        s = cls(list(ref))
+    steps = [('built', None)]
+    if n >= 2:
+        steps += [('pop-last', None), ('pop-first', None), ('discard-middle', None), ('re-add', None)]
+    for step, _ in steps:
+        if step == 'pop-last':
+            v = s.pop()
+            if v != ref[-1]:
+                return bad('pop', 'pop() returned %r, expected %r' % (v, ref[-1]), ref[-1], v)
+            ref.pop()
+        elif step == 'pop-first':
+            v = s.pop(last=False)
+            if v != ref[0]:
+                return bad('pop', 'pop(last=False) returned %r, expected %r' % (v, ref[0]), ref[0], v)
+            ref.pop(0)
+        elif step == 'discard-middle' and ref:
+            v = ref[len(ref) // 2]
+            s.discard(v)
+            ref.remove(v)
+        elif step == 're-add' and ref:
+            s.add(ref[0])              # already present: no change
+            s.add(-5)
+            ref.append(-5)
+        ctx.count('probes')
+        ctx.count('large_comparisons')
+        same = [('list', list(ref)), ('tuple', tuple(ref)), ('OrderedSet', xtuml.OrderedSet(list(ref))),
+                ('QuerySet', xtuml.QuerySet(list(ref))), ('itself', s)]
+        for name, other in same:
+            if not (s == other) or (s != other):
+                return bad('eq', 'after %s it does not compare equal to %s holding the same elements in the same order '
+                           '(== %r, != %r)' % (step, name if name == 'itself' else 'a ' + name, s == other, s != other), True, False)
+        differ = []
+        if len(ref) > 1:
+            differ += [('the reversed list', list(ref[::-1])), ('the list without its last element', list(ref[:-1])),
+                       ('the list with two neighbours exchanged', list(ref[:-2]) + [ref[-1], ref[-2]])]
+        differ += [('the list with one more element', list(ref) + [-9])]
+        for name, other in differ:
+            if (s == other) or not (s != other):
+                return bad('ne', 'after %s it compares equal to %s' % (step, name), False, True)
+        if len(s) != len(ref) or list(s) != ref or list(reversed(s)) != ref[::-1]:
+            return bad('content', 'after %s: length %d, expected %d; iteration %s the reference' %
+                       (step, len(s), len(ref), 'equals' if list(s) == ref else 'differs from'), len(ref), len(s))
+        has_ends = case['cls'] == 'QuerySet'              # first / last are properties of query sets
+        if ref and ((has_ends and (s.first != ref[0] or s.last != ref[-1])) or ref[len(ref) // 2] not in s or -7 in s):
+            return bad('ends', 'after %s: first / last / membership disagree with the reference' % step)
+        ctx.count('traces')
+    ctx.distinct('outcomes', ('large', case['cls'], n > 256))
+    return True
+
+
+def large_task(sub, cases):
+    for case in cases:
+        try:
+            with core.time_limit(120.0):
+                large_case(sub, case)
+        except core.Timeout:
+            sub.violation('c17:large:hang', case, 'comparisons on a set of %d elements did not finish within 120 s' % case['n'])
+        except Exception as e:
+            sub.violation('c17:large:crash:%s' % type(e).__name__, case, '%s: %s' % (type(e).__name__, e))
+
+
 def replay(ctx, case):
+    if case.get('family') == 'large':
+        return large_task(ctx, [case])
     m = SetModel(case['cls'], len(case['universe']), 0)
     for pal in PALETTES + [FALSY_PALETTE]:
         if list(map(repr, pal[:len(case['universe'])])) == case['universe']:
@@ -557,6 +649,10 @@ def coverage(ctx):
              '(operation, exception or result) outcome; probes = read-only comparisons/algebra evaluated in every state '
              'against every ordered subset as OrderedSet, QuerySet, list and tuple',
         probes=ctx.n('probes'),
+        large_sets=dict(sizes=LARGE_SIZES['quick' if ctx.quick else 'thorough'], builds=LARGE_BUILDS, comparison_rounds=ctx.n('large_comparisons'),
+                        what='sets of these sizes (elements 1, 4, 7, ...) built three ways, then pop from both ends / discard / add; after '
+                             'every step equality and inequality against list, tuple, OrderedSet, QuerySet, itself and four near misses, '
+                             'length, iteration both ways, first / last / membership'),
         bounds=dict(universe=3 if ctx.quick else 5, classes=['OrderedSet', 'QuerySet'],
                     operands='every ordered subset of the universe as OrderedSet/QuerySet/list/tuple/generator/self'),
         exhaustive=bool(closed) and not ctx.caps_hit,
